@@ -91,7 +91,7 @@ def wire_stage(work, res, tier, prefixes, replay=None):
             # the quick tier executes a seeded sample of the enumerated cases (the model check above is exhaustive)
             rng = random.Random(vlib.SEED)
             lines = open(allc).read().split("\n")[:-1]
-            pick = rng.sample(lines, min(10000, len(lines)))
+            pick = rng.sample(lines, min(15000, len(lines)))
             # always include the version-byte cases on raw user payloads (DESIGN.md §6, F4)
             have = set(pick)
             pick += [x for x in lines if '"attack":"version"' in x and '"msg":"user"' in x and x not in have]
